@@ -97,6 +97,7 @@ Lemma check_policy_sub pl c r m pl' v :
   check_policy pl c r m = (pl', v) -> forall p, In p pl' -> In p pl \/ p = mkPend c (Some r) (b_serial m).
 Proof.
   unfold check_policy. intros H p Hp.
+  destruct (unknown_type m); [inversion H; subst; left; auto|].
   set (pr := if b_rserial m =? 0 then (pl, false)
              else match check_reply pl c r (b_rserial m) with Some pl'0 => (pl'0, true) | None => (pl, false) end) in H.
   assert (Hs : forall q, In q (fst pr) -> In q pl).
@@ -105,7 +106,7 @@ Proof.
   destruct pr as [pl1 req]. simpl in Hs.
   destruct (deny_send m req || deny_recv m req).
   - inversion H; subst. left; auto.
-  - destruct (b_type m); try solve [inversion H; subst; left; auto].
+  - destruct (b_type m) as [[| | |]|n]; try solve [inversion H; subst; left; auto].
     unfold expect_reply in H. destruct (b_noreply m); [inversion H; subst; left; auto|].
     destruct (existsb (pend_match c r (b_serial m)) pl1); inversion H; subst; [left; auto|].
     destruct Hp as [<-|Hp]; [right; reflexivity | left; auto].
@@ -274,7 +275,7 @@ Proof.
   destruct d as [|u|w].
   - unfold to_driver. destruct (deny_send m false); [simpl; auto|].
     destruct (driver_generic st c m) as [st' l] eqn:E. simpl.
-    unfold driver_generic in E. destruct (b_type m); inversion E; subst; auto.
+    unfold driver_generic in E. destruct (b_type m) as [[| | |]|n]; inversion E; subst; auto.
   - apply G.
   - apply G.
 Qed.
